@@ -220,7 +220,7 @@ theorem helper_parse_parses_string (parse : String → Option String) (tok : Str
     parseStrLiteral parse tok (.nameValue p (.lit ⟨.str s, t, sp⟩) t' sp') = parsedFromValue parse tok ⟨.str s, t, sp⟩ := rfl
 
 /-! ### non-vacuity -/
-def pAB : Path := ⟨false, ["a", "b"], true, "a :: b", ⟨4, 8⟩⟩
+def pAB : Path := { global := false, segs := ["a", "b"], plain := true, toks := "a :: b", span := ⟨4, 8⟩ }
 example : pathFromExpr (fun s => if s = "a::b" then some "a :: b" else none) id (.path pAB ⟨4, 8⟩) = .ok "a :: b" := rfl
 example : pathFromExpr (fun s => if s = "a::b" then some "a :: b" else none) id
     (.lit ⟨.str "a::b", "\"a::b\"", ⟨4, 10⟩⟩) = .ok "a :: b" := by
